@@ -20,7 +20,7 @@ RULE = (
     "blocks, multi-chunk core dims for apply_gufunc, mismatched chunking in stack/concat, reshape, many-chunk "
     "cumulative_*); a case (recipe, configuration) is non-trivial when cubed raised (its type and phase are "
     "judged) or ran to completion on a multi-block input (no mid-run failure); distinct by hash"
-    " Plus a bounded-exhaustive parameter sweep: single-operation recipes enumerating the discrete parameters of the public functions for 1-3 dimensions (every ordered choice of tensordot contraction axes; per-dimension {all, reversed, strided, reversed+strided, integer} indexing with a new axis at every position; all axis permutations, moveaxis pairs, flip/reduction axis subsets x keepdims, roll, arg-reductions, scans, diff, repeat, take, unstack, concat/stack/expand_dims positions, pad widths, tril/triu offsets, vecdot axes: 857 cases), geometry drawn at random, each run optimised and unoptimised."
+    " Plus a bounded-exhaustive parameter sweep: single-operation recipes enumerating the discrete parameters of the public functions for 1-3 dimensions (every ordered choice of tensordot contraction axes; per-dimension {all, reversed, strided, reversed+strided, integer} indexing with a new axis at every position; all axis permutations, moveaxis pairs, flip/reduction axis subsets x keepdims, roll, arg-reductions, scans, diff, repeat, take, unstack, concat/stack/expand_dims positions, pad widths, tril/triu offsets, vecdot axes, ordered block selections through Array.blocks: 1032 cases; reshape splitting or merging dimensions of sizes 6-12 for every chunking), geometry drawn at random, each run optimised and unoptimised."
 )
 ASSUMPTIONS = [
     "runs are fault free (no injection), so any exception after executor entry is cubed's own",
@@ -101,7 +101,7 @@ def finalize(tier, merged):
     return {
         "rule": RULE,
         "floors": [
-            ("parameter-sweep cases run (of 857 enumerated)", c.get("param_sweep_cases", 0), 700),
+            ("parameter-sweep cases run (of 1032 enumerated)", c.get("param_sweep_cases", 0), 850),
             ("exceptions judged (type+phase)", c.get("exceptions_judged", 0), 150 if tier == "quick" else 1000),
             ("runs completed without mid-run failure", c.get("completed", 0), 1500 if tier == "quick" else 10000),
         ],
